@@ -117,10 +117,18 @@ def check(db, rep):
     oc = call_sites(uh, lambda n: n.get('cs') == OSS + '::OnCoreChange')
     ok = False
     if oc:
-        g = _g(uh, oc[0][0])
-        txt = ' '.join(c for c, pol in g if pol)
+        atoms = []
+        work = list(dominating_guards(uh, oc[0][0]))
+        while work:
+            c, pol = work.pop()
+            c2 = uh.strip(c)
+            if c2['k'] == 'BinaryOperator' and c2.get('op') == '&&' and pol:
+                work += [(x, True) for x in uh.children(c2)]
+            else:
+                atoms.append((c2.get('txt', ''), pol))
+        txt = ' '.join(c for c, pol in atoms if pol)
         ok = 'coreHash' in txt and '!=' in txt and 'DndStatus' in txt
-        only = len(g) == 1 or all('coreHash' in c or 'DndStatus' in c for c, pol in g)
+        only = all(('coreHash' in c and '!=' in c) or 'DndStatus' in c for c, pol in atoms)
         ok = ok and only
     if ok:
         r3.ok('UpdateHashes', 'OnCoreChange(pid) when the core hash changed and notifications are not suspended', '%s:%d' % (uh.file, uh.line))
